@@ -35,7 +35,13 @@ func checkAgainstRef(tag, src string, doc any, vars exec.Vars, nullLabel string)
 	ge := errClass(gerr)
 	ok := ge == werr && (werr != eNone || sameSeq(got, want, perm))
 	if !ok && nullLabel != "" {
-		w2, e2, _, perm2 := refQueryOpt(p.AST, doc, vars, true)
+		w2, e2, open2, perm2 := refQueryOpt(p.AST, doc, vars, true)
+		if open2 {
+			// under the known finding's model the evaluation reaches a rule
+			// the reference leaves open: nothing further can be attributed
+			nd.Cover(tag + "/open-under-known-finding")
+			return
+		}
 		if ge == e2 && (e2 != eNone || sameSeq(got, w2, perm2)) {
 			nd.Assert(false, nullLabel)
 			return
